@@ -48,6 +48,20 @@ impl<VM: VMBinding, P: ConcurrentPlan<VM = VM> + PlanTraceObject<VM>, const KIND
     GCWork<VM> for ConcurrentTraceObjects<VM, P, KIND>
 {
     fn do_work(&mut self, worker: &mut GCWorker<VM>, mmtk: &'static MMTK<VM>) {
+        #[cfg(mmtk_verif)]
+        {
+            crate::verif::emit(|| {
+                format!(
+                    "\"ev\":\"ConcTrace\",\"n\":{},\"marked\":{},\"marking\":{}",
+                    self.initial_objects.len(),
+                    self.already_marked,
+                    mmtk.get_plan()
+                        .concurrent()
+                        .is_some_and(|p| p.concurrent_work_in_progress())
+                )
+            });
+            crate::verif::sync_point("concurrent_trace", self.initial_objects.len());
+        }
         let tls = worker.tls;
         let trace = PlanTrace::<P, KIND>::from_mmtk(mmtk);
 
